@@ -301,16 +301,24 @@ struct verif_thread {
 
 // ------------------------------------------------------------------ deque (ready queue log)
 namespace verif_dq {
-// allocator that bypasses the counted global operator new (DESIGN 2.4): the ready queue's
-// node churn is not an allocation "of their own" of the primitives under test
+// The thread's ready queue (coro_queue::queue_impl::instance, one thread_local object per thread) is
+// the only container whose node churn is not an allocation "of their own" of the primitives under
+// test (DESIGN 2.4): the FIRST deque of coroutine handles a thread constructs gets an allocator that
+// bypasses the counted global operator new. Any further deque of handles constructed on the same
+// thread is some other container and allocates through the counted operator new like everything else.
+struct tl_count_t { unsigned handle_deques = 0; };
+inline thread_local tl_count_t tl_count;
 template<class T> struct raw_alloc {
     using value_type = T;
-    raw_alloc() = default;
-    template<class U> raw_alloc(const raw_alloc<U> &) noexcept {}
-    T *allocate(size_t n) { return static_cast<T *>(std::malloc(n * sizeof(T))); }
-    void deallocate(T *p, size_t) noexcept { std::free(p); }
-    template<class U> bool operator==(const raw_alloc<U> &) const noexcept { return true; }
-    template<class U> bool operator!=(const raw_alloc<U> &) const noexcept { return false; }
+    using propagate_on_container_move_assignment = std::true_type;
+    using propagate_on_container_swap = std::true_type;
+    bool counted;
+    raw_alloc() : counted(++tl_count.handle_deques > 1) {}
+    template<class U> raw_alloc(const raw_alloc<U> &o) noexcept : counted(o.counted) {}
+    T *allocate(size_t n) { return static_cast<T *>(counted ? ::operator new(n * sizeof(T)) : std::malloc(n * sizeof(T))); }
+    void deallocate(T *p, size_t) noexcept { if (counted) ::operator delete(p); else std::free(p); }
+    template<class U> bool operator==(const raw_alloc<U> &o) const noexcept { return counted == o.counted; }
+    template<class U> bool operator!=(const raw_alloc<U> &o) const noexcept { return counted != o.counted; }
 };
 struct log_t {
     // ring of (op, handle address); op: 1 push_back 2 pop_front 3 pop_back 4 push_front
